@@ -367,7 +367,7 @@ impl Workload for Navigation {
 pub fn run(ctx: &Ctx) -> i32 {
     let mut acc = Acc::new(ctx);
     let wl = Navigation {
-        n: if ctx.quick() { 48 } else { 1500 },
+        n: if ctx.quick() { 160 } else { 1500 },
         stride: 1,
     };
     acc.pool(&wl, "c17", true);
